@@ -879,7 +879,7 @@ example :
                 if n = "target" then { kind := 1, ndim := 1, shape := [4], tnum := 2, flags := 7 } else
                 if n = "output" then { kind := 1, ndim := 2, shape := [3, 4], tnum := 0, flags := 7 } else {}) = some 1 := by
   decide
-example : Generated.argLinkTable.length = 63 ∧ Generated.checkFlowTable.length = 6 := by decide
+example : Generated.argLinkTable.length = 64 ∧ Generated.checkFlowTable.length = 6 := by decide
 
 /-! ### round 3, composed with the C10 theorems of round 3 (histogram, lbp map) -/
 
